@@ -5,7 +5,7 @@ package encryption
 
 // RawHash: SHA3-256 of the bytes of data. The body (golang.org/x/crypto/sha3) is outside the
 // verifier's reach; the contract is assumed (A-hash). It panics on any other dynamic type.
-//@ func RawHash returns (h)
+//@ func RawHash(data) returns (h)
 //@   trusted
 //@   requires data is []byte || data is string || data is HashBytes      #known-type
 //@   assigns nothing
@@ -16,7 +16,7 @@ package encryption
 //@ ufun HashStr(s Str) Str
 //@ axiom hash-injective: forall x Str, y Str :: HashStr(x) == HashStr(y) ==> x == y
 
-//@ func Hash returns (s)
+//@ func Hash(data) returns (s)
 //@   trusted
 //@   requires data is []byte || data is string || data is HashBytes      #known-type
 //@   assigns nothing
